@@ -1,10 +1,359 @@
 package sim
 
-import "github.com/pion/turn/v5"
+import (
+	"bytes"
+	"encoding/hex"
+	"fmt"
+	"net"
+	"time"
 
-// relay-socket part of the client world (C13); filled in below.
+	"github.com/pion/stun/v3"
+	"github.com/pion/turn/v5"
+	"github.com/pion/turn/v5/internal/client"
+)
+
+// relay-socket part of the client world (C13): WriteTo / ReadFrom / deadlines / Close on the
+// client's relayed net.PacketConn against the scripted server.
+
 func (c *callRec) mark() { c.marked = true }
 
-func (w *CliWorld) execRelay(op *Op, cli *turn.Client) bool { return false }
-func (w *CliWorld) checkRelay(final bool)                   {}
-func (w *CliWorld) bgTransactions() int                     { return 0 }
+func (w *CliWorld) bgTransactions() int {
+	if w.relay != nil || w.tcpAlloc != nil {
+		return 1 << 20 // refresh traffic runs in the background: the table is not judged
+	}
+	return 0
+}
+
+func (w *CliWorld) getRelay() net.PacketConn {
+	w.mu.Lock()
+	defer w.mu.Unlock()
+	return w.relay
+}
+
+func (w *CliWorld) execRelay(op *Op, cli *turn.Client) bool {
+	switch op.Kind {
+	case "alloc":
+		w.call(op, func(c *callRec) {
+			conn, err := cli.Allocate()
+			c.Err = err
+			w.mu.Lock()
+			if err == nil {
+				w.relay = conn
+			}
+			w.mu.Unlock()
+		})
+	case "alloc_tcp":
+		w.call(op, func(c *callRec) {
+			a, err := cli.AllocateTCP()
+			c.Err = err
+			w.mu.Lock()
+			if err == nil {
+				w.tcpAlloc = a
+			}
+			w.mu.Unlock()
+		})
+	case "writeto":
+		relay := w.getRelay()
+		if relay == nil {
+			return true
+		}
+		payload := MakePayload(w.P.Seed, op.Actor, op)
+		peer := mustUDPAddr(op.A.Peer)
+		w.call(op, func(c *callRec) {
+			c.Data = payload
+			c.N, c.Err = relay.WriteTo(payload, peer)
+		})
+	case "readfrom":
+		relay := w.getRelay()
+		if relay == nil {
+			return true
+		}
+		w.call(op, func(c *callRec) {
+			buf := make([]byte, 70000)
+			n, from, err := relay.ReadFrom(buf)
+			c.N, c.From, c.Err = n, from, err
+			if err == nil {
+				c.Data = append([]byte(nil), buf[:n]...)
+			}
+		})
+	case "set_deadline":
+		relay := w.getRelay()
+		if relay == nil {
+			return true
+		}
+		at := time.Now().Add(time.Duration(op.A.DurNS))
+		w.mu.Lock()
+		w.deadlines = append(w.deadlines, dlRec{Set: w.K.Now(), At: w.K.Now() + op.A.DurNS})
+		w.mu.Unlock()
+		w.call(op, func(c *callRec) { c.Err = relay.SetReadDeadline(at) })
+	case "close_relay":
+		relay := w.getRelay()
+		if relay == nil {
+			return true
+		}
+		w.mu.Lock()
+		if !w.relayClosed {
+			w.relayClosedAt = w.K.Now()
+			w.relayClosed = true
+		}
+		w.mu.Unlock()
+		w.call(op, func(c *callRec) { c.Err = relay.Close() })
+	case "srv_data":
+		payload := MakePayload(w.P.Seed, "srv", op)
+		peer := mustUDPAddr(op.A.Peer)
+		m, err := stun.Build(stun.TransactionID, stun.NewType(stun.MethodData, stun.ClassIndication), aPeer(peer.IP, peer.Port), aData(payload))
+		if err != nil {
+			Fatalf("build data ind: %v", err)
+		}
+		w.mu.Lock()
+		w.injected = append(w.injected, injRec{T: w.K.Now(), Peer: ustr(peer), Data: payload, Known: true})
+		w.mu.Unlock()
+		w.Net.SendUDP(w.SrvAddr, w.cliAddr, m.Raw)
+	case "srv_chandata":
+		payload := MakePayload(w.P.Seed, "srv", op)
+		w.mu.Lock()
+		peer, known := w.chanSeen[uint16(op.A.Chan)]
+		if !known {
+			// the client assigns channel numbers when WriteTo is first called for a peer, before the
+			// ChannelBind request is on the wire: such a number may already be known to it
+			for _, c := range w.calls {
+				if c.Kind == "writeto" {
+					known = true
+				}
+			}
+		}
+		w.injected = append(w.injected, injRec{T: w.K.Now(), Peer: peer, Data: payload, Chan: uint16(op.A.Chan), Known: known})
+		w.mu.Unlock()
+		w.Net.SendUDP(w.SrvAddr, w.cliAddr, buildChannelData(uint16(op.A.Chan), payload, true))
+	case "srv_connattempt":
+		for i := 0; i < op.A.N; i++ {
+			m, err := stun.Build(stun.TransactionID, stun.NewType(methodConnAttempt, stun.ClassIndication), aPeer(net.ParseIP("10.0.2.9"), 7000+i), aConnID(uint32(1000+i)))
+			if err != nil {
+				Fatalf("build connattempt: %v", err)
+			}
+			w.Net.SendUDP(w.SrvAddr, w.cliAddr, m.Raw)
+		}
+		w.K.Stats.Probe("connattempt_burst")
+	case "srv_raw":
+		b, _ := hex.DecodeString(op.A.Raw)
+		w.Net.SendUDP(w.SrvAddr, w.cliAddr, b)
+	default:
+		return false
+	}
+	return true
+}
+
+type dlRec struct{ Set, At int64 }
+
+// noteWire is called (under w.mu) for everything the client writes: keeps the first-seen
+// order needed by the C13 oracle.
+func (w *CliWorld) relayWire(rec *wireRec, now int64) {
+	switch rec.What {
+	case "chanbind-req":
+		if rec.Chan < 0x4000 || rec.Chan > 0x7FFF {
+			w.viol("C13", "shared-or-invalid-channel", kv("why", "range"), "ChannelBind request for number 0x%04x", rec.Chan)
+		}
+		if w.chanSeen == nil {
+			w.chanSeen = map[uint16]string{}
+			w.peerChan = map[string]uint16{}
+		}
+		if p, ok := w.chanSeen[rec.Chan]; ok && p != rec.Peer {
+			w.viol("C13", "shared-or-invalid-channel", kv("why", "shared"), "channel 0x%04x requested for %s and for %s", rec.Chan, p, rec.Peer)
+		}
+		if n, ok := w.peerChan[rec.Peer]; ok && n != rec.Chan {
+			w.viol("C13", "shared-or-invalid-channel", kv("why", "two-numbers"), "peer %s bound to 0x%04x and 0x%04x", rec.Peer, n, rec.Chan)
+		}
+		w.chanSeen[rec.Chan] = rec.Peer
+		w.peerChan[rec.Peer] = rec.Chan
+	case "send-ind":
+		ip := mustUDPAddr(rec.Peer).IP.String()
+		if t, ok := w.permDelivered[ip]; !ok || t > now {
+			w.viol("C13", "data-before-permission", kv("form", "send"), "Send indication toward %s on the wire although no CreatePermission/ChannelBind success for that IP has reached the client", rec.Peer)
+		}
+	case "chandata":
+		cd, ok := w.chanDelivered[rec.Chan]
+		if !ok || cd.T > now {
+			w.viol("C13", "chandata-before-bind", nil, "ChannelData on 0x%04x on the wire although no ChannelBind success for that number has reached the client", rec.Chan)
+			return
+		}
+		// which peer was this payload meant for?
+		for _, c := range w.calls {
+			if c.Kind == "writeto" && bytes.Equal(c.Data, rec.Data) {
+				if want := ustr(mustUDPAddr(c.Op.A.Peer)); want != cd.Peer {
+					w.viol("C13", "chandata-wrong-peer", nil, "payload written to %s went out on channel 0x%04x which the server bound to %s", want, rec.Chan, cd.Peer)
+				}
+				break
+			}
+		}
+	}
+}
+
+type chanDel struct {
+	Peer string
+	T    int64
+}
+
+// relayDelivered is called (under w.mu) when a success response reaches the client.
+func (w *CliWorld) relayDelivered(rr *respRec, now int64) {
+	if !rr.OK {
+		return
+	}
+	for _, ip := range rr.PermIPs {
+		if _, ok := w.permDelivered[ip]; !ok {
+			w.permDelivered[ip] = now
+		}
+	}
+	if rr.Chan != 0 {
+		if _, ok := w.chanDelivered[rr.Chan]; !ok {
+			w.chanDelivered[rr.Chan] = chanDel{Peer: rr.ChanPeer, T: now}
+		}
+	}
+}
+
+// checkRelay: reads, deadlines, close, liveness.
+func (w *CliWorld) checkRelay(final bool) {
+	w.mu.Lock()
+	defer w.mu.Unlock()
+	now := w.K.Now()
+	stalled := len(w.K.StallIntervals()) > 0
+	// ReadFrom results must be injected payloads with the right source, in per-peer order, once
+	used := map[int]bool{}
+	lastIdx := map[string]int{}
+	for _, c := range w.calls {
+		if c.Kind != "readfrom" || !c.Done || c.Err != nil {
+			continue
+		}
+		idx := -1
+		for i, in := range w.injected {
+			if !used[i] && bytes.Equal(in.Data, c.Data) {
+				idx = i
+				break
+			}
+		}
+		if idx < 0 {
+			if !c.marked {
+				c.mark()
+				dup := false
+				for _, in := range w.injected {
+					if bytes.Equal(in.Data, c.Data) {
+						dup = true
+					}
+				}
+				if dup {
+					w.viol("C13", "read-mismatch", kv("field", "duplicate"), "ReadFrom returned a payload of %d bytes more often than the server relayed it", len(c.Data))
+				} else {
+					w.viol("C13", "read-mismatch", kv("field", "payload"), "ReadFrom returned %d bytes that the server never relayed", len(c.Data))
+				}
+			}
+			continue
+		}
+		used[idx] = true
+		in := w.injected[idx]
+		from := ""
+		if ua, ok := c.From.(*net.UDPAddr); ok {
+			from = ustr(ua)
+		}
+		if in.Peer != "" && from != in.Peer && !c.marked {
+			c.mark()
+			w.viol("C13", "read-mismatch", kv("field", "address"), "payload relayed from %s (chan 0x%04x) was returned by ReadFrom with address %s", in.Peer, in.Chan, from)
+		}
+		if !in.Known && in.Chan != 0 && !c.marked {
+			c.mark()
+			w.viol("C13", "read-mismatch", kv("field", "unknown-channel"), "ChannelData on channel 0x%04x, which the client never bound, was delivered to ReadFrom", in.Chan)
+		}
+		if li, ok := lastIdx[in.Peer]; ok && idx < li && !c.marked {
+			c.mark()
+			w.viol("C13", "read-mismatch", kv("field", "order"), "payloads from %s were returned out of order", in.Peer)
+		}
+		lastIdx[in.Peer] = idx
+	}
+	// blocked readers: deadline and Close must unblock them at that very instant
+	for _, c := range w.calls {
+		if c.Kind != "readfrom" || c.marked {
+			continue
+		}
+		if c.Done && c.Err != nil && !stalled {
+			want := w.unblockInstant(c)
+			if want >= 0 && c.TEnd != want && final {
+				c.mark()
+				w.viol("C13", "deadline-ignored", kv("how", "instant"), "blocked ReadFrom (since %d) returned %v at %d, expected to be released at %d", c.TStart, c.Err, c.TEnd, want)
+			}
+		}
+		if !c.Done && final && !stalled {
+			want := w.unblockInstant(c)
+			if want >= 0 && now > want+ms {
+				c.mark()
+				cls := "deadline-ignored"
+				if w.relayClosed && want == w.relayClosedAt {
+					cls = "close-ignored"
+				}
+				w.viol("C13", cls, kv("how", "stuck"), "ReadFrom blocked since %d is still blocked at %d although it had to be released at %d", c.TStart, now, want)
+			}
+		}
+	}
+	if final {
+		// every injected payload that had a reader waiting must have been delivered when nothing was lost
+		w.livenessRelay(now, stalled)
+	}
+}
+
+// unblockInstant: when a ReadFrom that finds no data must return (deadline / close), -1 = never.
+func (w *CliWorld) unblockInstant(c *callRec) int64 {
+	const none = int64(-1)
+	if w.relayClosed && w.relayClosedAt <= c.TStart {
+		return c.TStart
+	}
+	cur := none
+	for _, d := range w.deadlines {
+		if d.Set <= c.TStart {
+			cur = d.At
+		}
+	}
+	if cur != none && cur <= c.TStart {
+		return c.TStart
+	}
+	closeAt := none
+	if w.relayClosed {
+		closeAt = w.relayClosedAt
+	}
+	for _, d := range w.deadlines {
+		if d.Set <= c.TStart {
+			continue
+		}
+		if closeAt != none && closeAt <= d.Set {
+			break
+		}
+		if cur != none && cur <= d.Set {
+			return cur
+		}
+		cur = d.At
+		if cur != none && cur <= d.Set {
+			return d.Set
+		}
+	}
+	switch {
+	case cur != none && closeAt != none:
+		return minI(cur, closeAt)
+	case cur != none:
+		return cur
+	}
+	return closeAt
+}
+
+func (w *CliWorld) livenessRelay(now int64, stalled bool) {
+	if stalled {
+		return // a stalled client may legitimately miss its retransmission schedule
+	}
+	for _, c := range w.calls {
+		if c.probed || c.Op == nil || !hasFlag(c.Op, "probe") {
+			continue
+		}
+		c.probed = true
+		if !c.Done || c.Err != nil {
+			w.viol("C13", "inbound-blocked", kv("by", w.P.Flavor), "liveness probe (%s) after inbound bursts did not succeed: done=%v err=%v - the client's inbound path is blocked", c.Kind, c.Done, c.Err)
+		}
+	}
+}
+
+var _ = fmt.Sprintf
+var _ client.TransactionResult
